@@ -66,14 +66,12 @@ def l1ctlMsg (hsn maio : Nat) (chans : List Nat) : L1ctlH1 :=
 
 /-- The regenerated data of the current tree the chain theorems speak about: the capacities of the
 arrays the list passes through (`struct l1ctl_h1.ma[64]` of two-octet entries, trxcon's `h1.ma[64]`, the
-firmware's `l1s.dedicated.h1.ma[64]`, the callers' `ma[64]`), the flag bits, the RR causes, and that
-`trxcon_phyif_handle_cmd` hands the command to `trx_if_handle_phyif_cmd` unchanged. -/
+firmware's `l1s.dedicated.h1.ma[64]`, the callers' `ma[64]`), the flag bits, the RR causes. -/
 theorem tree_constants :
     Gen.HopChain.l1ctlMaCap = 64 ∧ Gen.HopChain.l1ctlMaElem = 2 ∧ l1ctlOctets = 128 ∧
     Gen.HopChain.trxconMaCap = 64 ∧ Gen.fwMaCapacity = 64 ∧ Gen.MobileAlloc.hoppingCap = 64 ∧
     Gen.HopChain.freqMapSize = 166 ∧ Gen.HopChain.mobAllocLvSize = 9 ∧
-    arfcnPcs = 0x8000 ∧ arfcnFlagMask = 0xf000 ∧ causeNoCellAllocA = 0x65 ∧ causeFreqNotImpl = 0x08 ∧
-    Gen.HopChain.phyifForwards = true := by decide
+    arfcnPcs = 0x8000 ∧ arfcnFlagMask = 0xf000 ∧ causeNoCellAllocA = 0x65 ∧ causeFreqNotImpl = 0x08 := by decide
 
 /-! ### facts about the decoded list (from `decode_ma_spec`) -/
 
@@ -227,9 +225,8 @@ theorem chain_trxcon_side (hsn maio : Nat) (chans : List Nat) (hh : hsn < 256) (
   have e2 : TrxconIf.u8 maio = maio := by simp only [TrxconIf.u8]; omega
   rw [e1, e2, setfh_dgram_eq hsn maio hh hm chans] at hsent'
   refine ⟨?_, ?_⟩
-  · have hfw : Gen.HopChain.phyifForwards = true := by decide
-    simp only [trxconPath, hproc, handleDchEstReq, bind, Except.bind, pure, Except.pure, hfw, Bool.not_true,
-      Bool.false_eq_true, if_false, cPhyCmd_setfh_pad _ hsn maio chans _ hne (by omega), hc, hsent']
+  · simp only [trxconPath, hproc, handleDchEstReq, bind, Except.bind, pure, Except.pure,
+      cPhyCmd_setfh_pad _ hsn maio chans _ hne (by omega), hc, hsent']
     rfl
   · have hlen := (Trxcon.setfh_len hsn maio chans hne hv).2.2.2 hfit
     rw [e1, e2] at hlen
@@ -249,9 +246,8 @@ theorem chain_setfh_enospc (hsn maio : Nat) (chans : List Nat)
   have hproc := trxconProc_ok hsn maio chans hne hN hu
   have hno := Trxcon.setfh_enospc { state := Gen.Trxcon.stIdle, prevState := Gen.Trxcon.stOffline } hsn maio chans
     hne hv (by omega) hbig
-  have hfw : Gen.HopChain.phyifForwards = true := by decide
-  simp only [trxconPath, hproc, handleDchEstReq, bind, Except.bind, pure, Except.pure, hfw, Bool.not_true,
-    Bool.false_eq_true, if_false, cPhyCmd_setfh_pad _ hsn maio chans _ hne (by omega), hno]
+  simp only [trxconPath, hproc, handleDchEstReq, bind, Except.bind, pure, Except.pure,
+    cPhyCmd_setfh_pad _ hsn maio chans _ hne (by omega), hno]
 
 /-- The text always fits for up to 62 channels of any band, and for up to 64 channels (the maximum
 of a Mobile Allocation) when every channel lies below 1 GHz (GSM 450 … E-GSM 900: 14 characters
